@@ -20,7 +20,7 @@ import sys
 REPO = "/repo/crates/steel-core/src"
 VERIF = os.path.dirname(os.path.dirname(os.path.abspath(__file__)))
 FILES = ["steel_vm/vm.rs", "steel_vm/vm/jit.rs", "steel_vm/transducers.rs", "steel_vm/lazy_stream.rs"]
-PUBLISHING_DELEGATES = ("call_primitive_func", "call_boxed_func")
+PUBLISHING_DELEGATES = ("call_primitive_func", "call_boxed_func", "call_builtin_published", "call_builtin_published_on_stack")
 
 
 def strip_comments(src):
@@ -291,7 +291,14 @@ def main():
     g += ["  ⟨%s, %s, %d, %s⟩," % (lean_str(x["file"]), lean_str(x["fn"]), x["line"],
                                    "true" if x["guard_kept"] else "false") for x in gates]
     g[-1] = g[-1].rstrip(",")
-    g += ["]", "", "end SteelVerif.C16", ""]
+    known = open(os.path.join(VERIF, "KNOWN_FINDINGS.txt")).read()
+    open_k16b = re.search(r"^finding:.*\bid=K16b\b", known, re.M) is not None
+    exc = sorted({r["fn"] for r in rows if not r["publishes"]}) if open_k16b else []
+    g += ["]", "",
+          "/-- Functions excused while K16b is an OPEN finding (the functions that still have an unpublished arm); empty once it",
+          "is `fixed:` - then a call path of a plain built-in that is not wrapped in a safepoint breaks `blocking_paths_publish`. -/",
+          "def openK16b : List String := [%s]" % ", ".join(lean_str(x) for x in exc), "",
+          "end SteelVerif.C16", ""]
     os.makedirs(os.path.join(VERIF, "lean/SteelVerif/C16"), exist_ok=True)
     open(os.path.join(VERIF, "lean/SteelVerif/C16/GenCallPathsTable.lean"), "w").write("\n".join(g))
     p = ["/- GENERATED by translate/c16_callpaths.py from /repo (do not edit). -/",
